@@ -61,7 +61,15 @@ type FuncContract struct {
 	NoPanic     bool
 	Fresh       bool // results are freshly allocated objects
 	Reveals     []string
+	Asserts     []*AssertSpec
 	Preserves   []SExpr // objects that calls with an unbounded frame (function values, unspecified externals) cannot reach
+}
+
+// AssertSpec: an assertion checked just before the call whose source text contains Key.
+type AssertSpec struct {
+	Key     string
+	Clause  *Clause
+	Matched int
 }
 
 type SpecFunc struct {
@@ -400,6 +408,31 @@ func (cs *Contracts) LoadFile(path, pkgPath string, fromRepo bool) error {
 			} else if cur != nil {
 				cur.Split = s
 			}
+		case "assert":
+			// assert before "<source text of a call>": expr
+			if cur == nil {
+				return errf("assert outside func")
+			}
+			r := strings.TrimSpace(rest)
+			tags := ""
+			if strings.HasPrefix(r, "[") {
+				end := strings.Index(r, "]")
+				tags = r[:end+1]
+				r = strings.TrimSpace(r[end+1:])
+			}
+			if !strings.HasPrefix(r, "before \"") {
+				return errf("assert before \"call text\": expr")
+			}
+			r = r[len("before \""):]
+			q := strings.Index(r, "\"")
+			key := r[:q]
+			r = strings.TrimSpace(r[q+1:])
+			r = strings.TrimPrefix(r, ":")
+			cl, err := mkClause("assert", tags+" "+r, line)
+			if err != nil {
+				return err
+			}
+			cur.Asserts = append(cur.Asserts, &AssertSpec{Key: key, Clause: cl})
 		case "preserves":
 			if cur == nil {
 				return errf("preserves outside func")
